@@ -9,6 +9,8 @@ opp / spike platforms do it: channels are `PlatformBatchLight` subclasses, the s
 Like real hardware the stub attributes the k-th brightness to channel `first.index + k` of the same chain
 (not to the channel object carried in the tuple), so wrong grouping is visible to the oracle.
 
+Lights with `subtype: hwfade` are `LightPlatformDirectFade` channels with a limited hardware fade time (the
+generic "hardware can fade, but not that long" path of mpf/platforms/interfaces/light_platform_interface.py).
 All other subtypes fall through to SimPlatform (direct hardware-fade SimLight channels); `platform: drivers`
 lights use coils of this platform (SimDriver).
 """
@@ -19,6 +21,7 @@ from sim import ensure_repo_import
 ensure_repo_import()
 
 from mpf.core.platform_batch_light_system import PlatformBatchLight, PlatformBatchLightSystem   # noqa: E402
+from mpf.platforms.interfaces.light_platform_interface import LightPlatformDirectFade           # noqa: E402
 from sim.platform import SimPlatform                                                             # noqa: E402
 
 
@@ -53,11 +56,47 @@ class BatchChannel(PlatformBatchLight):
         return "<BatchChannel {}-{}>".format(self.chain, self.index)
 
 
+class HwFadeLight(LightPlatformDirectFade):
+    """A channel whose hardware can fade on its own, but only up to `max_fade_ms` (longer fades are stepped by
+    the real LightPlatformDirectFade task).  Records every (brightness, fade_ms) command."""
+
+    __slots__ = ["platform", "max_fade_ms"]
+
+    def __init__(self, number, platform, max_fade_ms):
+        super().__init__(number, platform.machine.clock.loop)
+        self.platform = platform
+        self.max_fade_ms = max_fade_ms
+
+    def get_max_fade_ms(self):
+        return self.max_fade_ms
+
+    def set_brightness_and_fade(self, brightness, fade_ms):
+        p = self.platform
+        t = p.machine.clock.get_time()
+        rec = {"t": t, "num": self.number, "brightness": brightness, "fade_ms": fade_ms}
+        p.hwfade_log.append(rec)
+        p.hwfade_state[self.number] = (brightness, fade_ms, t)
+        for fn in p.hwfade_listeners:
+            fn(rec)
+
+    def get_board_name(self):
+        return "simhwfade"
+
+    def is_successor_of(self, other):
+        raise AssertionError("not a chain")
+
+    def get_successor_number(self):
+        raise AssertionError("not a chain")
+
+    def __lt__(self, other):
+        return self.number < other.number
+
+
 class BatchSimPlatform(SimPlatform):
     """SimPlatform + batched LED chains."""
 
     # per-run parameters, set by the check (in the forked child) before boot
-    PARAMS = {"update_hz": 50, "max_batch_size": 64, "max_fade_ms": 0, "cb_yield": None}
+    PARAMS = {"update_hz": 50, "max_batch_size": 64, "max_fade_ms": 0, "cb_yield": None, "hwfade_max_ms": 100}
 
     def __init__(self, machine):
         super().__init__(machine)
@@ -68,6 +107,10 @@ class BatchSimPlatform(SimPlatform):
         self.batch_state = {}           # "chain-index" -> (brightness, fade_ms, t of command)
         self.batch_listeners = []
         self.batch_calls_in_flight = 0
+        self.hwfade_lights = {}
+        self.hwfade_log = []
+        self.hwfade_state = {}          # number -> (brightness, fade_ms, t of command)
+        self.hwfade_listeners = []
 
     def __repr__(self):
         return "<Platform.SimBatch>"
@@ -85,6 +128,8 @@ class BatchSimPlatform(SimPlatform):
     def stop(self):
         if self.batch_system:
             self.batch_system.stop()
+        for light in self.hwfade_lights.values():
+            light.stop()
         super().stop()
 
     async def _send_multiple_light_update(self, sequential_brightness_list):
@@ -115,6 +160,10 @@ class BatchSimPlatform(SimPlatform):
             return [{"number": "{}-{}".format(chain, int(led) * 3 + k)} for k in range(3)]
         if subtype == "batch1":
             return [{"number": str(number)}]
+        if subtype == "hwfade":
+            return [{"number": "{}-{}".format(number, c)} for c in "rgb"]
+        if subtype == "hwfade1":
+            return [{"number": str(number)}]
         return super().parse_light_number_to_channels(number, subtype)
 
     def configure_light(self, number, subtype, config, platform_settings):
@@ -124,4 +173,8 @@ class BatchSimPlatform(SimPlatform):
                 raise AssertionError("duplicate batch channel {}".format(ch.number))
             self.batch_channels[ch.number] = ch
             return ch
+        if subtype in ("hwfade", "hwfade1"):
+            light = HwFadeLight("hwfade-{}".format(number), self, self.params["hwfade_max_ms"])
+            self.hwfade_lights[light.number] = light
+            return light
         return super().configure_light(number, subtype, config, platform_settings)
